@@ -161,8 +161,27 @@ def _attr_of_self(t: Term, name_suffix: str) -> bool:
     return t.op == "attr" and t.args[1].endswith(name_suffix) and unsnap(t.args[0]).op in ("param",)
 
 
+def _switch_bound_lock_attr(prog):
+    """name of the attribute when a light switch is bound to the lock it operates at construction: `self.X = <constructor parameter>` in __init__ and
+    no other assignment to X in the class (the lock a switch works on is then fixed per switch object instead of being named at every call)"""
+    lsc = prog.cls(RW + "._LightSwitch")
+    if "__init__" not in lsc.methods:
+        return None
+    fi, ex, res = _events(prog, RW + "._LightSwitch.__init__")
+    cands = [e.d["name"] for e in res.events if e.kind == "setattr" and unsnap(e.d["value"]).op == "param" and unsnap(e.d["value"]).args[0] in fi.params[1:]]
+    if len(cands) != 1:
+        return None
+    short = cands[0].split("__")[-1]
+    writes = 0
+    for n in ast.walk(lsc.node):
+        if isinstance(n, ast.Attribute) and isinstance(n.ctx, (ast.Store, ast.Del)) and n.attr.split("__")[-1] == short:
+            writes += 1
+    return cands[0] if writes == 1 else None
+
+
 def lightswitch_rules(prog, chk, pid):
     P = lambda s: "%s.%s" % (pid, s)
+    bound = _switch_bound_lock_attr(prog)
     for meth, delta, thresh, lockop in (("acquire", 1, 1, "acquire"), ("release", -1, 0, "release")):
         fi, ex, res = _events(prog, RW + "._LightSwitch." + meth)
         where = "%s:%d" % (fi.file, fi.lineno)
@@ -171,7 +190,7 @@ def lightswitch_rules(prog, chk, pid):
         for e in ev:
             if e.kind == "mcall" and e.d["name"] in ("acquire", "release"):
                 r = unsnap(e.d["recv"])
-                who = "mutex" if _attr_of_self(r, "__mutex") else ("lock" if r.op == "param" else "?")
+                who = "mutex" if _attr_of_self(r, "__mutex") else ("lock" if r.op == "param" or (bound is not None and _attr_of_self(r, bound) and r.args[1] == bound) else "?")
                 seq.append((who + "." + e.d["name"], e))
             elif e.kind == "with_enter" and _attr_of_self(e.d["mgr"], "__mutex"):
                 seq.append(("mutex.acquire", e))
@@ -232,6 +251,17 @@ def rwlock_rules(prog, chk, pid):
     ok = set(locks) == {"no_readers", "no_writers", "readers_queue"} and len({v.uid for v in locks.values()}) == 3 and set(switches) == {"read_switch", "write_switch"} and len({v.uid for v in switches.values()}) == 2
     chk.require(ok, P("rwlock-init"), fi.qualname, "two light switches, three locks, all distinct", "%s:%d" % (fi.file, fi.lineno), "distinct switch and lock objects", "RWLock is not built from two distinct switches and three distinct locks (%s / %s)" % (sorted(locks), sorted(switches)))
 
+    # a switch bound to its lock at construction: read_switch = _LightSwitch(no_writers) -- the lock named at the call sites in the other spelling
+    bound_to = {}
+    if _switch_bound_lock_attr(prog) is not None:
+        for e in res.events:
+            if e.kind == "new" and e.d["cls"].name == "_LightSwitch" and len(e.d["args"]) == 1 and not e.d["kwargs"]:
+                a0 = unsnap(e.d["args"][0])
+                sw = [k for k, v in switches.items() if v is unsnap(e.d["result"])]
+                lk = [k for k, v in locks.items() if v is a0] or ([a0.args[1].split("__")[-1]] if a0.op == "attr" else [])
+                if len(sw) == 1 and len(lk) == 1:
+                    bound_to[sw[0]] = lk[0]
+
     def ops(qual):
         f, e, r = _events(prog, qual)
         out = []
@@ -243,6 +273,8 @@ def rwlock_rules(prog, chk, pid):
                 if x.d["args"]:
                     a = unsnap(x.d["args"][0])
                     arg = a.args[1].split("__")[-1] if a.op == "attr" else show(a, 2)
+                elif nm in bound_to:
+                    arg = bound_to[nm]
                 out.append("%s.%s(%s)" % (nm, x.d["name"], arg))
             elif x.kind == "call" and x.d["callee"].name in ("acquire", "release"):
                 recv = unsnap(x.d["args"][0]) if x.d["args"] else None
